@@ -275,13 +275,20 @@ def rhp_card_deck(rng):
     return [float(v) for v in params], deckmod.render(deck)
 
 
+DEVELOP_RECORDS = []        # calls of develop_lattice seen in this run
+
+
 def convert_watchdog(text, secs=30.0):
     """impl.convert under a watchdog: a conversion that does not end (the
-    unbounded loop of hexVertices) comes back as exc='Hang'."""
+    unbounded loop of hexVertices) comes back as exc='Hang'.  Every call of
+    CellConversion.develop_lattice made on the way is recorded (run-time
+    wrapper of props/c06.py) for tie:develophex."""
+    from props import c06
     old = signal.signal(signal.SIGALRM, _alarm)
     signal.setitimer(signal.ITIMER_REAL, secs)
     try:
-        return impl.convert(text, keep_stdout=False)
+        with c06.spy_develop(DEVELOP_RECORDS):
+            return impl.convert(text, keep_stdout=False)
     finally:
         signal.setitimer(signal.ITIMER_REAL, 0)
         signal.signal(signal.SIGALRM, old)
@@ -701,6 +708,7 @@ def run(res, tier, seed, proofs_ok):
                 'non-trivial = every case (distinct by surfaces)')
 
     _T0[0] = time.time()
+    del DEVELOP_RECORDS[:]
     # ---------------- corpus ----------------
     # witness of the repaired finding six_planes_trivial_range: one row of
     # hexagons, six planes; must convert
@@ -1128,6 +1136,82 @@ def run(res, tier, seed, proofs_ok):
     run_tie('rotate', 'c07_rotate', TIE_MODEL['rotate'][0], 'check_rotate',
             rot_cases, rot_meta, 'rotate FS')
     _stage('surface-list ties')
+    # malformed LAT=2 cells, only to feed tie:develophex with the error paths
+    # of develop_lattice: a flipped literal (LatticeError raised by
+    # hexSortSides and re-raised), a cap parallel to the axis
+    # (ZeroDivisionError), a literal dropped (AssertionError)
+    for _ in range(18 if quick else 120):
+        deck, meta = gen_deck(rng, style='planes')
+        if meta['moved']:
+            continue
+        lat = deck['cells'][1]
+        lits = list(lat['expr'][1:])
+        fault = rng.choice(['flip', 'cap', 'drop'])
+        if fault == 'flip':
+            k = rng.randrange(6)
+            lits[k] = ('s', -lits[k][1])
+        elif fault == 'cap' and len(lits) == 8:
+            k = rng.choice([6, 7])
+            lits[k] = ('s', abs(lits[rng.randrange(6)][1])
+                       * (1 if lits[k][1] > 0 else -1))
+        else:
+            fault = 'drop'
+            del lits[rng.randrange(len(lits))]
+        lat['expr'] = ('*',) + tuple(lits)
+        text = deckmod.render(deck)
+        conv = convert_watchdog(text, 15.0)
+        res.seen(text)
+        res.count(f'malformed deck ({fault}): '
+                  + ('converted' if conv.ok else str(conv.exc)))
+    # develop_lattice for LAT=2 at function level: every call recorded during
+    # the conversions above (deck sweep, range combinations, RHP cards)
+    from props import c06
+    dev_cases, dev_meta = [], []
+    for rec in DEVELOP_RECORDS:
+        if rec.get('lattice') != 2 or 'snapshot_error' in rec:
+            continue
+        if rec['out'][0] == 'err' and rec['out'][1] not in (
+                'LatticeError', 'ZeroDivisionError', 'AssertionError'):
+            rec = dict(rec, out=('err', 'MissingLatticeOptError'))
+        case, problems = c06.develop_case(rec)
+        res.count('develop_lattice LAT=2: '
+                  + (rec['out'][1] if rec['out'][0] == 'err'
+                     else f'{len(rec["out"][1])} elements'
+                     if len(rec['out'][1]) < 3 else '3+ elements'))
+        for prob in problems[:1]:
+            res.violation('impl-violation',
+                          'develop_lattice (LAT=2): ' + prob,
+                          {'input': {'record': repr(rec)[:3000]}},
+                          found_input=True)
+        dev_cases.append(case)
+        dev_meta.append({'ids': rec['ids'], 'fill': rec['fill'],
+                         'out': repr(rec['out'])[:400]})
+    bad, errs = common.run_case_files(
+        'c07_devhex',
+        'From Coq Require Import List ZArith Bool String Ascii PrimFloat.\n'
+        'From T4V Require Import Base.Str Base.Scalar C06.Model C06.Exec.\n'
+        'From T4V Require C07.ExecDevelop.\nOpen Scope string_scope.\n',
+        'develop_case', 'C07.ExecDevelop.check_develop_hex', dev_cases)
+    res.obligation(f'tie:develophex ({len(dev_cases)} recorded calls of '
+                   'develop_lattice on LAT=2 cells: model '
+                   'develop_lattice_hex_gen FS = implementation)',
+                   not bad and not errs and len(dev_cases) > 20,
+                   f'{len(bad)} disagreements {errs[:1]}')
+    if errs:
+        res.violation('correspondence',
+                      'tie:develophex: the generated Coq files did not run: '
+                      + errs[0][-300:],
+                      {'theorem_or_correspondence': 'tie:develophex',
+                       'errors': errs[:2]}, found_input=False)
+    for idx in bad[:5]:
+        res.violation('correspondence',
+                      'tie:develophex: model and implementation disagree on '
+                      f'recorded call {idx}: {repr(dev_meta[idx])[:300]}',
+                      {'input': {'tie': 'develophex', 'args': dev_meta[idx]},
+                       'case': dev_cases[idx],
+                       'theorem_or_correspondence': 'tie:develophex'},
+                      found_input=False)
+    _stage('tie develophex')
     res.count('deck points checked', n_checked)
     res.obligation(f'sweep: {n_decks} LAT=2 decks, {n_checked} points located '
                    'with the reference semantics', n_checked > 20 * n_decks,
